@@ -58,7 +58,7 @@ INT_POOL = [1.0, 2.0, 3.0, 4.0, 5.0, 6.0, 7.0, 8.0, 9.0]
 
 
 # ------------------------------------------------------------------------- ids
-ID_STYLES = ['plain', 'natsort', 'mixedwidth', 'long', 'punct', 'slash', 'nonascii', 'numeric']
+ID_STYLES = ['plain', 'natsort', 'mixedwidth', 'long', 'punct', 'slash', 'nonascii', 'numeric', 'oddquote']
 
 
 def ids_for(style, axis, n):
@@ -77,6 +77,10 @@ def ids_for(style, axis, n):
         return ['%s/a/b%d/' % (p, i) for i in range(n)]
     if style == 'nonascii':
         return [p + x for x in ['ö', '日本語', 'ßé\U0001f600', 'Ж'][:n]]
+    if style == 'oddquote':
+        # an unbalanced double quote, a lone bracket / brace, a backslash, a comma: text that a hand-written
+        # scanner may mistake for structure
+        return [p + x for x in ['"1', ']2 {', '\\3,', '[4"']][:n]
     if style == 'numeric':
         base = ['1', '2.5', '1e3', 'nan'] if axis == 'observation' else ['7', '0.5', '-3', 'inf']
         return base[:n]
